@@ -75,6 +75,7 @@ type Inc struct {
 	obsStates   []raft.RaftState
 	imageAtBoot bootImage
 	openedSnapIdx uint64
+	lastTransStep int64 // scheduling step of the last observed change into or out of Leader
 	openFailed    map[string]bool // snapshots whose Open failed (injected) during start-up
 	beyondSince time.Duration
 	bootFaults  int64
